@@ -2,14 +2,15 @@
    Model: model/Sender.v -- printcore's stop-and-wait sender (_sendnext / _listen / _send / startprint), a Marlin-style
    line-number + checksum firmware and FIFO channels, as a transition system whose runs are ALL interleavings of the
    print thread, the firmware and the read thread, with an arbitrary good/corrupted flag on every transmission.
-   PARTIAL: (1) each _sendnext call and each line handled by _listen is one atomic step (bytecode-level races on the
-   unlocked clear / resendfrom are not modelled); (2) unconditional completeness under corruption is FALSE for the faithful model and for the code (C15_refuted_tail,
+   PARTIAL: (1) each _sendnext call and each line handled by _listen is one atomic step in the completeness theorems;
+   SAFETY is additionally proved when the two unlocked variables shared by the threads (clear, resendfrom) are overwritten
+   with arbitrary values at arbitrary moments (C15_safety_racy), which covers every bytecode-level race on them; (2) unconditional completeness under corruption is FALSE for the faithful model and for the code (C15_refuted_tail,
    C15_refuted_m110: the two known findings); what is proved is completeness on a clean link and, with corruption, completeness
    unless a Resend is read after the print thread stopped (C15_complete_unless_late_resend);
    (3) frame_bytes is compared byte-for-byte with the wire on every run; what a *corrupted* frame parses to is not modelled
    beyond C15_xor_detects_single (the protocol level only needs: rejected). *)
 From Coq Require Import ZArith NArith Bool List.
-From GS Require Import model.Sender proofs.SenderProofs proofs.FrameProofs proofs.SenderLive.
+From GS Require Import model.Sender proofs.SenderProofs proofs.FrameProofs proofs.SenderLive proofs.SenderRacy.
 Import ListNotations.
 Open Scope Z_scope.
 
@@ -21,6 +22,14 @@ Theorem C15_safety : forall (C : Type) job boot g ls s, 0 <= boot -> run C job l
     (g = true -> to_fw C s = [] -> lo = 0).
 Proof. exact safety. Qed.
 Print Assumptions C15_safety.
+
+(* SAFETY under races: the read thread writes only `clear` and `resendfrom`; let the environment overwrite both with
+   arbitrary values between any two steps (an over-approximation of every bytecode-level interleaving of the two
+   threads on these unlocked variables): the accepted log is still a contiguous, in-order, duplicate-free slice *)
+Theorem C15_safety_racy : forall (C : Type) job boot g ls s, 0 <= boot -> rrun C job ls (init C boot g) = Some s ->
+  exists lo, 0 <= lo /\ accepted C (fw C s) = slice C (cmds_of C job) lo (length (accepted C (fw C s))) /\
+    (g = true -> to_fw C s = [] -> lo = 0).
+Proof. exact safety_racy. Qed.
 
 (* numbering: in every reachable state the next new line number is the number of commands sent so far, every stored
    line k is command k of the job, and every uncorrupted frame on the wire carries (k, command k) *)
